@@ -1,6 +1,6 @@
 (* C11 — lock_all_entries yields each live entry of the snapshot exactly once. *)
 From Coq Require Import List Arith ZArith.
-From LK Require Import AList Model Inv StepInv PropLemmas DropInv.
+From LK Require Import AList Model Inv StepInv PropLemmas DropInv Stream.
 Import ListNotations.
 
 (* The call takes its snapshot in one critical section: exactly the keys present then (valued or locked),
@@ -59,6 +59,34 @@ Proof.
   intros c s a subs k g o H. exact (stream_unlock_enabled c s a subs k g o (reachable_inv c s H) (reachable_dinv c s H)).
 Qed.
 
+(* End to end, over the whole life of one stream and any interleaving with other agents (otrace = a run
+   with its observations; the stream is agent a, not cancelled during the run): the keys it yields are
+   pairwise distinct, every one of them was waiting in the pending set at the start and has left it, the
+   pending set only shrinks, and every key that was waiting at the start has been yielded, or the stream
+   obtained its lock and found no value under it (locked_valueless: that step, its pre-state value None, the
+   guard it then holds), or it is still waiting. *)
+Theorem C11_exactly_once : forall c a tr s0 s' subs0,
+  otrace c s0 tr s' -> aget a (s_ops s0) = Some (PStream subs0) ->
+  (forall e, In e tr -> ev_label e <> LCancel a) ->
+  exists subs', aget a (s_ops s') = Some (PStream subs') /\
+    NoDup (yields a tr) /\
+    (forall k, In k (yields a tr) -> waiting_sub (aget k subs0) /\ aget k subs' = None) /\
+    (forall k, aget k subs' <> None -> aget k subs0 <> None) /\
+    (forall k, waiting_sub (aget k subs0) ->
+       In k (yields a tr) \/ (exists e, In e tr /\ locked_valueless a k e) \/ waiting_sub (aget k subs')).
+Proof. exact stream_exactly_once. Qed.
+
+(* For a stream taken from its creation (pending set = the snapshot ks of C11_snapshot) to the point where it
+   reports its end (pending set empty, C11_end_iff_done): the yielded keys are distinct, all from the
+   snapshot, and every snapshot key was yielded unless it had no value when the stream locked it. *)
+Theorem C11_complete_at_end : forall c a tr s0 s' ks,
+  otrace c s0 tr s' -> aget a (s_ops s0) = Some (PStream (init_subs ks)) ->
+  (forall e, In e tr -> ev_label e <> LCancel a) ->
+  aget a (s_ops s') = Some (PStream []) ->
+  NoDup (yields a tr) /\ (forall k, In k (yields a tr) -> In k ks) /\
+  (forall k, In k ks -> In k (yields a tr) \/ exists e, In e tr /\ locked_valueless a k e).
+Proof. exact stream_fresh_complete. Qed.
+
 (* While items are pending, other calls stay enabled: C03_only_key_waits_block applies to every other agent. *)
 
 Example C11_witness :
@@ -71,3 +99,33 @@ Example C11_witness :
              ONothing; OStream [1; 2]; OItem 2 1 10%Z; ONothing; OPending;
              ONothing; OUnit; ONothing; ONothing; OEnd].
 Proof. eexists. vm_compute. reflexivity. Qed.
+
+(* non-vacuity of the end-to-end theorems: the run of C11_witness from the creation of the stream on *)
+Definition c11_s0 : state :=
+  match run (mkCfg true)
+    [LStart 0 (CLock ShTry 1 None); LResume 0 []; LGuardOp 0 (GInsert 10%Z); LStart 1 (CDrop 0); LResume 1 [];
+     LStart 2 (CLock ShTry 2 None); LResume 2 []; LStart 3 CStream; LResume 3 []]
+  with RunOk s _ => s | _ => init end.
+
+Example C11_trace_witness :
+  exists tr s',
+    otrace (mkCfg true) c11_s0 tr s' /\ aget 3 (s_ops c11_s0) = Some (PStream (init_subs [1; 2])) /\
+    (forall e, In e tr -> ev_label e <> LCancel 3) /\ aget 3 (s_ops s') = Some (PStream []) /\
+    yields 3 tr = [1] /\ exists e, In e tr /\ locked_valueless 3 2 e.
+Proof.
+  eexists. eexists. split.
+  { eapply ot_cons with (l := LSub 3 1 []); [vm_compute; reflexivity|].
+    eapply ot_cons with (l := LSub 3 2 []); [vm_compute; reflexivity|].
+    eapply ot_cons with (l := LStart 4 (CDrop 1)); [vm_compute; reflexivity|].
+    eapply ot_cons with (l := LResume 4 []); [vm_compute; reflexivity|].
+    eapply ot_cons with (l := LSub 3 2 []); [vm_compute; reflexivity|].
+    eapply ot_cons with (l := LSub 3 2 []); [vm_compute; reflexivity|].
+    apply ot_nil. }
+  split; [vm_compute; reflexivity|].
+  split; [intros e He; cbn [In] in He; repeat (destruct He as [<-|He]; [cbn; discriminate|]); destruct He|].
+  split; [vm_compute; reflexivity|].
+  split; [vm_compute; reflexivity|].
+  eexists. split; [right; right; right; right; left; reflexivity|].
+  cbn [locked_valueless]. do 4 eexists. split; [reflexivity|]. split; [vm_compute; reflexivity|]. split; [right; vm_compute; reflexivity|].
+  split; [vm_compute; reflexivity|]. split; [vm_compute; reflexivity|]. split; [vm_compute; reflexivity|]. vm_compute. auto.
+Qed.
